@@ -142,7 +142,10 @@ def sp_strategy():
     from hypothesis import strategies as st
     return st.fixed_dictionaries({'fault': st.sampled_from(FAULTS), 'opts': st.integers(0, 7), 'unsol': st.booleans(), 'enc_key': st.sampled_from([2, 2, 3]),
                                   'block': st.sampled_from(['aes128', 'aes256', '3des']), 'transport': st.sampled_from(['oaep', 'rsa15']), 'alg': st.sampled_from(build.HASHES),
-                                  'sign_r': st.booleans(), 'xsw': st.tuples(st.integers(0, 6), st.integers(0, 3), st.integers(0, 3)).map(list), 'conv': st.booleans()})
+                                  'sign_r': st.booleans(), 'xsw': st.tuples(st.integers(0, 6), st.integers(0, 3), st.integers(0, 3)).map(list), 'conv': st.booleans(),
+                                  # None: the assertion is encrypted for a key pair of the SP's configuration; otherwise for pool key 4, whose private key the application hands
+                                  # over per request (outstanding_certs) as the n-th of the listed keys
+                                  'per_request': st.sampled_from([None, None, None, [4], [4, 5], [5, 4], [5, 4, 6], [5, 6, 4]])})
 
 
 def run_sp(case):
@@ -194,9 +197,14 @@ def run_sp(case):
     kw = {'conv_info': {'entity_id': spside.SP}} if (case['conv'] or f == 'foreign-recipient') else {}
     out = {'id-req-1': '/one', 'id-req-2': '/two'}
     plain = build.render(r, [a], sign_response=sign_r, sign_assertions=sign_a, alg=case['alg'], post_assertion=post)
-    enc = build.render(r, [a], sign_response=sign_r, sign_assertions=sign_a, alg=case['alg'], post_assertion=post, encrypt_for=case['enc_key'], block=case['block'], transport=case['transport'])
+    pr = case.get('per_request')
+    enc = build.render(r, [a], sign_response=sign_r, sign_assertions=sign_a, alg=case['alg'], post_assertion=post, encrypt_for=4 if pr else case['enc_key'], block=case['block'], transport=case['transport'])
     vp = spside.deliver(sp, plain, outstanding=out, **kw)
-    ve = spside.deliver(sp, enc, outstanding=out, **kw)
+    kwe = dict(kw)
+    if pr:
+        certs = [{'key': open(world.key(k)).read(), 'cert': open(world.crt(k)).read()} for k in pr]
+        kwe['outstanding_certs'] = {'id-req-1': certs[0] if len(certs) == 1 else certs, 'id-req-2': certs, 'id-req-nobody': certs}    # keyed by the InResponseTo the response carries
+    ve = spside.deliver(sp, enc, outstanding=out, **kwe)
     if ve[0] == 'accept' and vp[0] != 'accept':
         raise Violation('encrypted-more-permissive:' + f, 'fault %s (SP options %r, allow_unsolicited=%r): the plain response is rejected (%s: %s) but the same assertion encrypted is accepted with identity %r'
                         % (f, (wrs, was, wors), case['unsol'], vp[1], vp[2], spside.identity_of(ve[1])))
@@ -204,7 +212,7 @@ def run_sp(case):
         raise Violation('valid-encrypted-rejected', 'valid response accepted in clear but rejected encrypted (key %d, %s/%s): %s %s' % (case['enc_key'], case['block'], case['transport'], ve[1], ve[2]))
     if ve[0] == 'accept' and vp[0] == 'accept' and spside.identity_of(ve[1]) != spside.identity_of(vp[1]):
         raise Violation('identity-differs-plain-vs-encrypted', '%r vs %r' % (spside.identity_of(vp[1]), spside.identity_of(ve[1])))
-    return '%s|plain-%s|enc-%s' % (f, vp[0], ve[0]), f != 'none'
+    return '%s|plain-%s|enc-%s%s' % (f, vp[0], ve[0], '|per-request-key-%d-of-%d' % (pr.index(4) + 1, len(pr)) if pr else ''), f != 'none'
 
 
 ADVICE_XPATH = ''.join("/*[local-name()='%s']" % v for v in ['Response', 'Assertion', 'Advice', 'EncryptedAssertion', 'Assertion'])
